@@ -12,6 +12,7 @@ Inductive jkind := JFwd | JBack | JBackNoInt.
 
 Inductive instr :=
   | ICache | IExtArg | INop
+  | IResume                                (* RESUME: eval-breaker check, may raise, runs no code of the frame's own *)
   | ILoadConst (isnone : bool)
   | IPop                                   (* POP_TOP: may pop anything, cannot raise *)
   | ISwap (n : nat) | ICopy (n : nat)
